@@ -36,7 +36,11 @@ Definition write_strict_ascii (q : Z) (s : bytes) : bytes :=
   | _ => strict_ascii_loop q s true false
   end.
 
-Section Encoder.
+(** The tree walk is written over the strict ASCII writer [wsa] so that the SAME walk can be
+    instantiated with the writer as it is ([write_strict_ascii], the model of the code: section
+    [Encoder] below) and with the repaired writer of finding C13-ascii-gt (Sml/StrictAscii.v). *)
+Section EncoderW.
+  Variable wsa : Z -> bytes -> bytes.
   Variable ffmt : fwidth -> Z -> bytes.
   Variable quote : bytes -> bytes.
 
@@ -45,7 +49,7 @@ Section Encoder.
   (** encodeString *)
   Definition encode_string (o : enc_opts) (tok : Z) (s : bytes) (strict : bool) : bytes :=
     [c_lt; tok; c_lb] ++ format_int (blen s) ++ [c_rb; c_sp]
-    ++ (if strict then write_strict_ascii (quote_byte o) s
+    ++ (if strict then wsa (quote_byte o) s
         else [quote_byte o] ++ s ++ [quote_byte o])
     ++ [c_gt].
 
@@ -74,7 +78,7 @@ Section Encoder.
 
   (** encodeItem / encodeList. A non-list child is preceded by the child indentation, a list
       child writes its own; every child is followed by a newline. *)
-  Fixpoint encode_item (o : enc_opts) (level : nat) (x : item) : bytes :=
+  Fixpoint encode_item_w (o : enc_opts) (level : nat) (x : item) : bytes :=
     match x with
     | IEmpty => []
     | IList cs =>
@@ -84,8 +88,8 @@ Section Encoder.
         | _ =>
             ind ++ [c_lt; 76; c_lb] ++ format_int (Z.of_nat (length cs)) ++ [c_rb; c_nl]
             ++ flat_map (fun c =>
-                           (if is_list c then encode_item o (S level) c
-                            else rep (eo_indent o) (S level) ++ encode_item o (S level) c)
+                           (if is_list c then encode_item_w o (S level) c
+                            else rep (eo_indent o) (S level) ++ encode_item_w o (S level) c)
                            ++ [c_nl]) cs
             ++ ind ++ [c_gt]
         end
@@ -99,9 +103,6 @@ Section Encoder.
     | IFloat w vs => encode_float w vs
     end.
 
-  (** Encoder.Encode / sml.Encode *)
-  Definition encode (o : enc_opts) (x : item) : bytes := encode_item o O x.
-  Definition encode_default (x : item) : bytes := encode default_opts x.
 
   (** writeSFQuote / writeHeader / EncodeMessage *)
   Definition sf_quote (o : enc_opts) : bytes :=
@@ -111,6 +112,21 @@ Section Encoder.
     sf_quote o ++ [83] ++ format_int (m_stream m) ++ [70] ++ format_int (m_function m) ++ sf_quote o
     ++ (if m_wbit m then [c_sp; 87] else []).
 
-  Definition encode_msg (o : enc_opts) (m : msg) : bytes :=
-    write_header o m ++ [c_nl] ++ encode_item o O (m_body m) ++ [c_nl; c_dot].
+  Definition encode_msg_w (o : enc_opts) (m : msg) : bytes :=
+    write_header o m ++ [c_nl] ++ encode_item_w o O (m_body m) ++ [c_nl; c_dot].
+End EncoderW.
+
+(** ---------- the encoder as it is ---------- *)
+Section Encoder.
+  Variable ffmt : fwidth -> Z -> bytes.
+  Variable quote : bytes -> bytes.
+
+  Definition encode_item : enc_opts -> nat -> item -> bytes := encode_item_w write_strict_ascii ffmt quote.
+
+  (** Encoder.Encode / sml.Encode *)
+  Definition encode (o : enc_opts) (x : item) : bytes := encode_item o O x.
+  Definition encode_default (x : item) : bytes := encode default_opts x.
+
+  (** Encoder.EncodeMessage / sml.EncodeMessage *)
+  Definition encode_msg : enc_opts -> msg -> bytes := encode_msg_w write_strict_ascii ffmt quote.
 End Encoder.
